@@ -142,7 +142,8 @@ Fixpoint nat_run (s : nat_state) (h : list nop) : list zs :=
   | o :: h' => let '(s', r) := nat_step s o in r :: nat_run s' h'
   end.
 
-(* wire: conf = [mode1to1; mapb; filtb; lifetime; k; mapped ips (k); local ips (k)];
+(* wire: conf = [flags; mapb; filtb; lifetime; k; mapped ips (k); local ips (k)]; flags: bit 0 = 1:1 mode, bits 1 and 2 = the
+   NATType options PortPreservation and Hairpinning, which the code documents as "not implemented yet" and ignores - as does the model;
    op = [dir (0 out, 1 in); now; src ip; src port; dst ip; dst port] *)
 Definition dec_nop (o : zs) : nop :=
   match o with
@@ -155,6 +156,6 @@ Definition nat_model_run (conf : zs) (ops : list zs) : list zs :=
   match conf with
   | m :: mb :: fb :: life :: k :: rest =>
       let kn := Z.to_nat k in
-      nat_run (new_nat (z2b m) mb fb life (firstn kn rest) (firstn kn (skipn kn rest))) (map dec_nop ops)
+      nat_run (new_nat (Z.odd m) mb fb life (firstn kn rest) (firstn kn (skipn kn rest))) (map dec_nop ops)
   | _ => []
   end.
